@@ -303,10 +303,13 @@ ADDENDA = {
 ADDENDA8 = {
     'C02': ' Every increment of JmpErrors (subtracted from the error count under -Y) is followed on every path by the counting emitter.',
     'C09': ' Where a (word count, position in word) pair is normalised by division, quotient and remainder are taken of the same dividend.',
-    'C10': ' Where a (word count, position in word) pair is normalised by division, quotient and remainder are taken of the same dividend.',
+    'C10': ' Where a (word count, position in word) pair is normalised by division, quotient and remainder are taken of the same dividend. The pseudo-instruction libraries read the logical counter only.',
     'C13': ' The key of the named PUSHV/POPV stack list is folded like symbol names (in the function or by every caller); '
            'a local pointer that is initialised with NULL and later tested receives a non-NULL value somewhere (predecessor pointers of list searches).',
     'C20': ' Every capacity GetErrorPos() requests for the position text includes a byte for the terminator.',
+    'C03': ' The position callbacks (*_GetPos) use bounded copies only; the IRPN count has an upper bound.',
+    'C08': ' No function that receives the pointer of a counted string value hands it to a routine that stops at a NUL character.',
+    'C12': ' Every line skipper that counts nested bodies recognises their start through MacroStart() or names at least its keywords.',
 }
 for _k, _v in ADDENDA.items():
     CLAIMS[_k]['text'] = CLAIMS[_k]['text'] + _v
